@@ -1,8 +1,8 @@
 (* C20 — Velocity modern forwarding data is authentic and negotiated like Velocity.
    Only statements and `exact`; proofs in Proofs/C20.v and Proofs/C20_parse.v.
    Model: Model/Forwarding.v (find_version = findForwardingVersion, velocity_choice = Velocity's choice,
-   impl_requested / spec_requested = reading of the request byte (gate: unsigned, Velocity: readByte,
-   signed), body / forwarding_data = CreateForwardingData, paper_check_integrity / paper_parse = Paper's
+   impl_requested / spec_requested = reading of the request byte (gate today: int(int8(b)); Velocity:
+   readByte, signed; prefix_requested = gate before fix 63b6e75: unsigned), body / forwarding_data = CreateForwardingData, paper_check_integrity / paper_parse = Paper's
    side, login_run = the backend login fragment), Base/Hmac.v + Base/Sha256.v executable. *)
 From Coq Require Import List NArith ZArith Bool.
 From Verif Require Import Base.Hex Base.Sha256 Base.Hmac Model.Prim Model.Forwarding
@@ -17,39 +17,67 @@ Theorem C20_version : forall r p k, find_version r p k = velocity_choice r p k.
 Proof. exact version_eq. Qed.
 Print Assumptions C20_version.
 
-(* ... and at the level of the request the backend sends (one byte): off the recorded trigger the code
-   chooses what Velocity chooses; on it (byte >= 0x80 with a 1.19.3+ client or a keyed player) the two
-   always differ, because gate reads the byte unsigned and Velocity signed (finding C20-1). *)
-Theorem C20_version_request_off_trigger : forall data p k,
+(* ... and at the level of the request the backend sends (one byte, 0..255): the code as it is now
+   (impl_requested = int(int8(b)), after fix 63b6e75) chooses what Velocity chooses (spec_requested =
+   ByteBuf.readByte, signed) for every request, and its whole answer is the demanded one. *)
+Theorem C20_version_request_impl_is_spec : forall data p k,
   Forall (fun b => (b < 256)%N) data ->
-  trigger_unsigned data p k = false ->
   find_version (requested_of_data impl_requested data) p k
   = velocity_choice (requested_of_data spec_requested data) p k.
-Proof. exact choice_off_trigger. Qed.
-Print Assumptions C20_version_request_off_trigger.
+Proof. exact choice_impl_is_spec. Qed.
+Print Assumptions C20_version_request_impl_is_spec.
 
-Theorem C20_version_request_on_trigger : forall data p k,
+Theorem C20_answer_impl_is_spec : forall data i,
+  Forall (fun b => (b < 256)%N) data ->
+  impl_forwarding_data data i = spec_forwarding_data data i.
+Proof. exact answer_impl_is_spec. Qed.
+Print Assumptions C20_answer_impl_is_spec.
+
+(* the code's answer to a request: authentic, Velocity's version, exactly the player's data *)
+Theorem C20_impl_answer : forall data i d,
+  Forall (fun b => (b < 256)%N) data ->
+  dom_input i ->
+  impl_forwarding_data data i = Some d ->
+  paper_check_integrity (f_secret i) d = true /\
+  paper_parse (skipn 32 d)
+  = Ok (expected_parsed (velocity_choice (requested_of_data spec_requested data) (f_protocol i)
+                                         (kind_of (f_key i))) i, []).
+Proof. exact impl_answer_thm. Qed.
+Print Assumptions C20_impl_answer.
+
+(* facts about the PRE-fix code (prefix_requested = int(p.Data[0]), unsigned; finding C20-1, fixed by
+   63b6e75): off the trigger it chose what Velocity chooses; on it (byte >= 0x80 with a 1.19.3+ client
+   or a keyed player) the two always differed. *)
+Theorem C20_prefix_version_request_off_trigger : forall data p k,
+  Forall (fun b => (b < 256)%N) data ->
+  trigger_unsigned data p k = false ->
+  find_version (requested_of_data prefix_requested data) p k
+  = velocity_choice (requested_of_data spec_requested data) p k.
+Proof. exact prefix_choice_off_trigger. Qed.
+Print Assumptions C20_prefix_version_request_off_trigger.
+
+Theorem C20_prefix_version_request_on_trigger : forall data p k,
   Forall (fun b => (b < 256)%N) data ->
   trigger_unsigned data p k = true ->
-  find_version (requested_of_data impl_requested data) p k
+  find_version (requested_of_data prefix_requested data) p k
   <> velocity_choice (requested_of_data spec_requested data) p k.
-Proof. exact choice_on_trigger. Qed.
-Print Assumptions C20_version_request_on_trigger.
+Proof. exact prefix_choice_on_trigger. Qed.
+Print Assumptions C20_prefix_version_request_on_trigger.
 
-Theorem C20_unsigned_byte_refuted :
+Theorem C20_prefix_unsigned_byte_refuted :
   trigger_unsigned [128%N] 761 KNone = true /\
-  find_version (requested_of_data impl_requested [128%N]) 761 KNone = 4 /\
-  velocity_choice (requested_of_data spec_requested [128%N]) 761 KNone = 1.
-Proof. exact unsigned_refuted. Qed.
-Print Assumptions C20_unsigned_byte_refuted.
+  find_version (requested_of_data prefix_requested [128%N]) 761 KNone = 4 /\
+  velocity_choice (requested_of_data spec_requested [128%N]) 761 KNone = 1 /\
+  find_version (requested_of_data impl_requested [128%N]) 761 KNone = 1.
+Proof. exact prefix_unsigned_refuted. Qed.
+Print Assumptions C20_prefix_unsigned_byte_refuted.
 
-(* the whole answer of the code equals the demanded one off the trigger *)
-Theorem C20_impl_eq_spec_off_trigger : forall data i,
+Theorem C20_prefix_eq_spec_off_trigger : forall data i,
   Forall (fun b => (b < 256)%N) data ->
   trigger_unsigned data (f_protocol i) (kind_of (f_key i)) = false ->
-  impl_forwarding_data data i = spec_forwarding_data data i.
-Proof. exact impl_eq_spec_off_trigger. Qed.
-Print Assumptions C20_impl_eq_spec_off_trigger.
+  prefix_forwarding_data data i = spec_forwarding_data data i.
+Proof. exact prefix_eq_spec_off_trigger. Qed.
+Print Assumptions C20_prefix_eq_spec_off_trigger.
 
 (* "the forwarding payload ... is authenticated with HMAC-SHA256 under the configured secret": the
    payload is mac ++ body with mac = HMAC-SHA256(secret, body), and Paper's integrity check accepts it. *)
